@@ -316,7 +316,12 @@ struct Sim {
     }
     int v = (int)(((sum % t.spec.mod) + t.spec.mod) % t.spec.mod);
     valueOut = encodeValue(t.spec, v);
-    if (t.spec.art) gWorld.art[t.spec.key] = valueOut;
+    if (t.spec.art) {
+      // the "output file" of this rule: written when the task computes, whether or not the
+      // completion is ever processed (a killed or cancelled build leaves it behind)
+      gWorld.art[t.spec.key] = valueOut;
+      OUT("art " << hex(t.spec.key) << " " << hex(valueOut));
+    }
   }
   bool logicValid(const RuleSpec& spec, const std::string& stored) {
     std::lock_guard<std::mutex> g(gWorld.mutex);
@@ -798,7 +803,9 @@ void Sim::dumpDB() {
   OUT("db-begin");
   // (1) raw rows through sqlite3 directly
   sqlite3* db = nullptr;
-  if (sqlite3_open_v2(dbPath.c_str(), &db, SQLITE_OPEN_READONLY, nullptr) == SQLITE_OK) {
+  // read-write (without create): a hot journal left by a killed process has to be rolled back by
+  // whoever opens the file next, exactly as the next build would do
+  if (sqlite3_open_v2(dbPath.c_str(), &db, SQLITE_OPEN_READWRITE, nullptr) == SQLITE_OK) {
     sqlite3_busy_timeout(db, 2000);
     auto query = [&](const char* sql, const std::function<void(sqlite3_stmt*)>& row) {
       sqlite3_stmt* st = nullptr;
